@@ -338,3 +338,77 @@ Definition max_col (s : detected) : nat :=
 Fixpoint join_cs (l : list string) : string :=
   match l with [] => "" | [x] => x | x :: r => x ++ ", " ++ join_cs r end.
 Definition suggest (s : detected) : string := join_cs (map (suggest_col s) (seq 0 (S (max_col s)))).
+
+(* ---------------------------------------------------------------- inspect: file kind ---- *)
+(* commands/inspect.py _detect_file_format: the fixed-width score, and cmd_inspect's early return.
+   lines = sample.split('\n') of the first 8192 characters (text mode); the model takes the first 20.
+   \d and \s are modelled for ASCII (is_digit, is_ws); len() counts code points (UTF-8 lead bytes). *)
+Definition ch_slash : ascii := "/"%char.
+Definition ch_dot : ascii := "."%char.
+Definition ch_hash : ascii := "#"%char.
+
+(* date_pattern.match(l): two digits, slash, two digits, slash, four digits, then at least two blanks *)
+Definition date2_prefix (l : string) : bool :=
+  match l with
+  | String a (String b (String s1 (String c (String d (String s2 (String e (String f (String g (String h
+      (String w1 (String w2 _))))))))))) =>
+      (is_digit a && is_digit b && Ascii.eqb s1 ch_slash && is_digit c && is_digit d && Ascii.eqb s2 ch_slash
+       && is_digit e && is_digit f && is_digit g && is_digit h && is_ws w1 && is_ws w2)%bool
+  | _ => false
+  end.
+
+(* amount_at_end.search(l): blanks, optional minus, digits/commas, dot, two digits, blanks, end of line *)
+Definition amt_here (s : string) : bool :=
+  match s with
+  | String w r =>
+      if is_ws w then
+        let r1 := lstrip r in
+        let r2 := match r1 with String c r' => if Ascii.eqb c ch_minus then r' else r1 | EmptyString => r1 end in
+        let (num, r3) := span (fun c => (is_digit c || Ascii.eqb c ch_comma)%bool) r2 in
+        if is_empty num then false
+        else match r3 with
+             | String p (String d1 (String d2 r4)) =>
+                 (Ascii.eqb p ch_dot && is_digit d1 && is_digit d2 && sall is_ws r4)%bool
+             | _ => false
+             end
+      else false
+  | EmptyString => false
+  end.
+Fixpoint amt_at_end (l : string) : bool :=
+  (amt_here l || match l with String _ r => amt_at_end r | EmptyString => false end)%bool.
+
+(* len(l): code points of the UTF-8 bytes *)
+Fixpoint ulen (s : string) : nat :=
+  match s with
+  | EmptyString => 0
+  | String c r => let n := N_of_ascii c in if (N.ltb n 128 || N.leb 192 n)%bool then S (ulen r) else ulen r
+  end.
+Definition counted_line (l : string) : bool :=
+  (negb (is_empty (strip l)) && negb (match l with String c _ => Ascii.eqb c ch_hash | EmptyString => false end))%bool.
+Definition sum_nat (l : list nat) : nat := fold_right Nat.add 0 l.
+Definition max_nat (l : list nat) : nat := fold_right Nat.max 0 l.
+Definition min_nat (l : list nat) : nat := match l with [] => 0 | x :: r => fold_right Nat.min x r end.
+(* avg_len > 80 and max - min < 20 over the non-blank, non-comment lines *)
+Definition uniform_long (lines : list string) : bool :=
+  let ls := map ulen (filter counted_line lines) in
+  match ls with
+  | [] => false
+  | _ => (Nat.ltb (80 * length ls) (sum_nat ls) && Nat.ltb (max_nat ls - min_nat ls) 20)%bool
+  end.
+Definition count_if (p : string -> bool) (l : list string) : nat := length (filter p l).
+
+Definition fw_score (all_lines : list string) : nat :=
+  let lines := firstn 20 all_lines in
+  (if uniform_long lines then 1 else 0)
+  + (if Nat.leb 3 (count_if date2_prefix lines) then 2 else 0)
+  + (if Nat.leb 3 (count_if amt_at_end lines) then 1 else 0).
+Definition is_fixed_width (all_lines : list string) : bool := Nat.leb 3 (fw_score all_lines).
+
+(* what cmd_inspect reports: fixed-width files return before auto-detection *)
+Inductive ireport := RFixedWidth | RNoDetect | RDetected (d : detected) (suggested : string).
+Definition inspect_report (all_lines headers : list string) : ireport :=
+  if is_fixed_width all_lines then RFixedWidth
+  else match auto_detect headers with
+       | Some d => RDetected d (suggest d)
+       | None => RNoDetect
+       end.
